@@ -7,14 +7,17 @@ package rpc
 // handlePacket+finishCall+parseResponseExtra and the generated ReadTL1 methods.
 
 import (
+	"context"
 	"encoding/hex"
 	"errors"
 	"fmt"
 	"io"
 	"math"
+	"net"
 	"sort"
 	"strconv"
 	"strings"
+	"sync"
 	"time"
 
 	"github.com/VKCOM/tl/pkg/rpc/internal/gen/tl"
@@ -347,7 +350,130 @@ func vWire(buf []byte, extraStart int) []byte {
 	return append(w, buf[:extraStart]...)
 }
 
-func VerifRpcextraClose() {}
+// ---- end-to-end loopback: a real rpc.Server and rpc.Client over TCP on 127.0.0.1
+
+type vScript struct {
+	body  []byte
+	extra ResponseExtra
+	err   error
+	seen  string // what the handler saw
+	calls int
+}
+
+var (
+	vMu     sync.Mutex
+	vCur    *vScript
+	vSrv    *Server
+	vCli    Client
+	vAddr   string
+	vE2EErr error
+)
+
+func vHandler(_ context.Context, hctx *HandlerContext) error {
+	vMu.Lock()
+	sc := vCur
+	vMu.Unlock()
+	if sc == nil {
+		return ErrNoHandler
+	}
+	to := "d"
+	if hctx.timeout != vDefaultTimeout {
+		to = strconv.FormatInt(int64(hctx.timeout/time.Millisecond), 10)
+	}
+	sc.calls++
+	sc.seen = fmt.Sprintf("%d %s %d %s %d %s %s %s", uint64(hctx.ActorID()), sBool(hctx.BodyFormatTL2()), hctx.RequestTag(),
+		sBool(hctx.noResult), hctx.requestExtraFieldsmask, to, sHexB(hctx.Request), sReqExtra(&hctx.RequestExtra))
+	hctx.Response = append(hctx.Response[:0], sc.body...)
+	hctx.ResponseExtra = sc.extra
+	return sc.err
+}
+
+func vStartE2E() error {
+	if vSrv != nil || vE2EErr != nil {
+		return vE2EErr
+	}
+	ln, err := net.Listen("tcp4", "127.0.0.1:0")
+	if err != nil {
+		vE2EErr = err
+		return err
+	}
+	quiet := func(string, ...any) {}
+	vSrv = NewServer(ServerWithHandler(vHandler), ServerWithLogf(quiet), ServerWithDefaultResponseTimeout(vDefaultTimeout),
+		ServerWithTrustedSubnetGroups([][]string{{"127.0.0.0/8"}}))
+	go func() { _ = vSrv.Serve(ln) }()
+	vAddr = ln.Addr().String()
+	vCli = NewClient(ClientWithLogf(quiet), ClientWithTrustedSubnetGroups([][]string{{"127.0.0.0/8"}}))
+	return nil
+}
+
+func VerifRpcextraClose() {
+	if vCli != nil {
+		_ = vCli.Close()
+	}
+	if vSrv != nil {
+		_ = vSrv.Close()
+	}
+}
+
+func vHandlerErr(w string) (error, bool) {
+	e := strings.Split(w, ":")
+	switch {
+	case w == "-":
+		return nil, true
+	case w == "n":
+		return ErrNoHandler, true
+	case len(e) == 3 && e[0] == "e":
+		return &Error{Code: int32(vU32(e[1])), Description: vStr(e[2])}, true
+	case len(e) == 3 && e[0] == "w":
+		return fmt.Errorf("handler failed: %w", &Error{Code: int32(vU32(e[1])), Description: vStr(e[2])}), true
+	case len(e) == 2 && e[0] == "o":
+		return errors.New(vStr(e[1])), true
+	}
+	return nil, false
+}
+
+// rpcextra.e2e <actor> <tl2> <body> <14 reqextra> <err> <respbody> <12 resextra>
+func vE2E(a []string) string {
+	if err := vStartE2E(); err != nil {
+		return "e2e-unavailable"
+	}
+	herr, ok := vHandlerErr(a[17])
+	if !ok {
+		return "bad-op"
+	}
+	sc := &vScript{body: vHex(a[18]), extra: vResExtra(a[19:]), err: herr}
+	req := vCli.GetRequest()
+	req.Body = append(req.Body[:0], vHex(a[2])...)
+	req.ActorID = int64(vU64(a[0]))
+	req.BodyFormatTL2 = vBool(a[1])
+	req.Extra = vReqExtra(a[3:17])
+	vMu.Lock()
+	vCur = sc
+	vMu.Unlock()
+	resp, err := vCli.Do(context.Background(), "tcp4", vAddr, req)
+	vMu.Lock()
+	vCur = nil
+	vMu.Unlock()
+	defer vCli.PutResponse(resp)
+	if sc.calls == 0 {
+		if err != nil {
+			return "refused"
+		}
+		return "no-handler-call"
+	}
+	if sc.calls != 1 {
+		return "handler-called-twice"
+	}
+	outcome := "ok"
+	if err != nil {
+		re, ok := err.(*Error)
+		if !ok {
+			return "ok " + sc.seen + " | " + vErrKind(err)
+		}
+		outcome = "e:" + u32s(re.Code) + ":" + sHexX(re.Description)
+	}
+	return fmt.Sprintf("ok %s | %s %s %s", sc.seen, sHexB(resp.Body), outcome, sResExtra(&resp.Extra))
+}
 
 func VerifRpcextraHandle(line string) (res string) {
 	defer func() {
@@ -411,6 +537,8 @@ func VerifRpcextraHandle(line string) (res string) {
 			return "big"
 		}
 		return fmt.Sprintf("ok %s %d %d %s", sHexB(hctx.Response), hctx.extraStart, hctx.ResponseExtra.Flags, vParseResp(hctx.bodyFormatTL2, vWire(hctx.Response, hctx.extraStart)))
+	case op == "rpcextra.e2e" && len(a) == 31:
+		return vE2E(a)
 	case op == "rpcextra.rparse" && len(a) == 2:
 		return vErrPrefix(vParseResp(vBool(a[0]), vHex(a[1])))
 	case op == "rpcextra.xread" && len(a) == 1:
